@@ -344,6 +344,14 @@ pub fn run(tier: &str) -> Report {
             strings.push(format!("{}0{}", d, s16));
         }
     }
+    // long strings with one non-ASCII character at every byte position (parsing must return Err, not panic)
+    for total in [20usize, 31, 32, 33, 34, 40, 64, 65] {
+        for pos in 0..total {
+            for ch in ["é", "٣", "€", "😀"] {
+                strings.push(format!("{}{}{}", "f".repeat(pos), ch, "f".repeat(total - pos - 1)));
+            }
+        }
+    }
     strings.push("ffffffffffffffff".into());
     strings.push("10000000000000000".into());
     strings.push("0x10".into());
